@@ -61,7 +61,7 @@ def cases(tier, rng):
             valid = [i for i in range(n) if dem[i] != -9999]
             pits = sorted(rng.sample(valid, rng.randint(1, min(3, len(valid)))))
         yield {"k": 601, "args": [[nr], [nc], dem, [-9999], [conn], [mode], pits],
-               "call": {"dtype": rng.choice(["int32", "float32", "float64"]), "from_dem": mode != 2 and conn == 8 and rng.random() < 0.3}, "group": f"rand-conn{conn}-mode{mode}"}
+               "call": {"dtype": rng.choice(["int32", "float32", "float64", "uint8", "uint16", "int16"]), "from_dem": mode != 2 and conn == 8 and rng.random() < 0.3}, "group": f"rand-conn{conn}-mode{mode}"}
 
 
 def _float_case(call):
@@ -108,6 +108,10 @@ def impl(case):
     a = case["args"]
     scale = case["call"].get("scale", 1)
     nr, nc, dem, nodata, conn, mode, pits = a[0][0], a[1][0], a[2], a[3][0], a[4][0], a[5][0], a[6]
+    unsigned = np.dtype(case["call"]["dtype"]).kind == "u"
+    if unsigned:        # the nodata value of an unsigned raster: the largest value of the type
+        nodata_model, nodata = nodata, int(np.iinfo(case["call"]["dtype"]).max)
+        dem = [(nodata if v == nodata_model else v) for v in dem]
     arr = np.array(dem, dtype=case["call"]["dtype"]).reshape(nr, nc)
     if scale != 1:      # eighths: exact in float32, scaled to integers for the model
         arr = np.where(arr == nodata, arr, arr / scale).astype(case["call"]["dtype"])
@@ -126,6 +130,8 @@ def impl(case):
     if np.any(f != np.round(f)) or d8.dtype != np.uint8 or f.dtype != arr.dtype:
         return [[-3], [str(f.dtype), str(d8.dtype)]]
     out = [[int(x) for x in f.ravel()], [int(x) for x in d8.ravel()]]
+    if unsigned:
+        out[0] = [(nodata_model if x == nodata else x) for x in out[0]]
     if case["call"].get("from_dem"):
         st2, flw = call_impl(pyflwdir.from_dem, arr, nodata=nodata, outlets="min" if mode == 1 else "edge")
         if st2 != "ok" or [int(x) for x in flw.to_array().ravel()] != _canon_d8(out[1], nr, nc):
